@@ -78,7 +78,7 @@ def main():
             if c.trusted:
                 res["assumptions"].append("TRUSTED contract (assumed at call sites, not proved): %s -- %s" % (c.qualname, c.note))
                 continue
-            if a.only and a.only not in c.qualname:
+            if a.only and a.only not in c.qualname and a.only not in (getattr(c, "label", None) or ""):
                 continue
             fo, obs, ex = prove_function(book, c, a.tier)
             per_fn.append((fo, obs, ex, c))
